@@ -199,3 +199,45 @@ def search_program(rng, nq, size, dfs=False, lib=True, leafs=False):
         return goals
 
     return block(list(range(1, nq + 1)), size, 0)
+
+
+def sched_tree_program(rng, nvars=5):
+    """Several disequalities over pairs with shared variables, then unifications that bind two
+    variables at once: the shape in which the ORDER of re-running stored constraints matters."""
+    vs = list(range(1, nvars + 1))
+    if rng.random() < 0.5:
+        # template: one unification (i) reduces disequality A so that it subsumes (or is subsumed
+        # by) a stored disequality B - B or A leaves the store in the middle of the re-run pass -
+        # and (ii) decides a third disequality C
+        x, y, z, w, v = rng.sample(vs, 5)
+        a, b, c = rng.sample([1, 2, 3, 4], 3)
+        A = ["neq", ["list", [var(x), var(y)]], ["list", [["num", a], ["num", b]]]]
+        B = rng.choice([
+            ["neq", ["list", [var(y), var(z)]], ["list", [["num", b], ["num", c]]]],
+            ["neq", ["list", [var(z), var(y)]], ["list", [["num", c], ["num", b]]]],
+            ["neq", ["list", [var(y), var(z), var(z)]], ["list", [["num", b], ["num", c], var(v)]]],
+        ])
+        C = rng.choice([["neq", var(w), var(v)], ["neq", var(w), ["num", c]], ["neq", ["list", [var(w), var(z)]], ["list", [var(v), var(z)]]]])
+        neqs = [A, B, C]
+        if rng.random() < 0.4:
+            neqs.append(["neq", var(z), ["num", rng.choice([a, b, c])]])
+        rng.shuffle(neqs)
+        rhs_w = var(v) if C[2] == var(v) or C[1][0] == "list" else ["num", c]
+        eqs = [["eq", ["list", [var(x), var(w)]], ["list", [["num", a], rhs_w]]]]
+        if rng.random() < 0.3:
+            eqs.append(["eq", var(y), ["num", rng.choice([a, b])]])
+        return neqs + eqs, nvars
+
+    def atom():
+        return var(rng.choice(vs)) if rng.random() < 0.7 else ["num", rng.choice([1, 2, 3])]
+
+    def side():
+        return ["list", [atom(), atom()]] if rng.random() < 0.6 else atom()
+
+    goals = []
+    for _ in range(rng.randint(3, 4)):
+        a, b = side(), side()
+        goals.append(["neq", a, b])
+    for _ in range(rng.randint(1, 2)):
+        goals.append(["eq", ["list", [atom(), atom()]], ["list", [atom(), atom()]]])
+    return goals, nvars
